@@ -3,6 +3,7 @@
 SimDisk: name -> bytearray, handles with read/write/tell/seek/close. Fault plan per handle:
   fail_read_at  = i      OSError(EIO) at the i-th read call
   eof_at        = k      the file ends after k bytes (truncated / torn file)
+  read_cap      = k      a read of more than k bytes returns only k (short read of a raw stream)
   fail_write_at = (i, keep, errno)   OSError at the i-th write call after persisting `keep`
                                       bytes of that call's data (0 = nothing, short/torn write)
 At-rest faults are applied to the stored bytes between a save and a later load.
@@ -22,6 +23,7 @@ class SimHandle:
         self.reads = 0
         self.writes = 0
         self.fault_fired = None
+        self.short_reads = 0
         if 'w' in mode:
             disk.files[name] = bytearray()
         elif name not in disk.files:
@@ -42,6 +44,10 @@ class SimHandle:
             end = min(end, self.fault['eof_at'])
         if n is None or n < 0:
             n = max(0, end - self.pos)
+        cap = self.fault.get('read_cap')
+        if cap and n > cap and end - self.pos > cap:
+            n = cap                    # a raw stream may hand out fewer bytes than asked for
+            self.short_reads += 1
         chunk = bytes(data[self.pos:min(end, self.pos + n)])
         if len(chunk) < n and 'eof_at' in self.fault and self.fault['eof_at'] < len(data):
             self.fault_fired = 'truncated'
